@@ -79,7 +79,7 @@ theorem newDT_builtFor_all :
       simp only [BuiltFor]
       exact ⟨child, by rw [this], rfl, newValidity_isSome nl, ih el hc⟩
   case case38 =>
-    intro path ename kf vf enl emd sorted nl md ihk ihv b h
+    intro path ename kf vf emd sorted nl md ihk ihv b h
     simp only [newDT, bind, Except.bind] at h
     cases hk : newB (path ++ "." ++ childName ename ++ "." ++ childName kf.name) kf with
     | error e => rw [hk] at h; cases h
@@ -90,8 +90,8 @@ theorem newDT_builtFor_all :
       | ok vb =>
         rw [hv] at h; cases h
         simp only [BuiltFor]
-        exact ⟨ename, kf, vf, sorted, enl, emd, rfl, rfl, newValidity_isSome nl, ihk kb hk, ihv vb hv⟩
-  case case42 =>
+        exact ⟨ename, kf, vf, sorted, false, emd, rfl, rfl, newValidity_isSome nl, ihk kb hk, ihv vb hv⟩
+  case case43 =>
     intro path fs nl md ih b h
     simp only [newDT, bind, Except.bind] at h
     cases hf : newFields path fs with
@@ -104,7 +104,7 @@ theorem newDT_builtFor_all :
       · cases h
         simp only [BuiltFor]
         exact ⟨fs, rfl, newValidity_isSome nl, ih bl hf⟩
-  case case43 =>
+  case case44 =>
     intro path k v nl md hint ihk ihv b h
     simp only [newDT, hint, if_true, bind, Except.bind] at h
     cases hk : newDT (path ++ ".key") k nl [] with
@@ -117,24 +117,24 @@ theorem newDT_builtFor_all :
         rw [hv] at h; cases h
         simp only [BuiltFor]
         exact ⟨k, v, rfl, hint, ihk kb hk, ihv vb hv⟩
-  case case45 =>
-    intro path fs mode nl md ih b h
+  case case46 =>
+    intro path fs nl md ih b h
     simp only [newDT, bind, Except.bind] at h
     cases hf : newUnionFields path fs 0 with
     | error e => rw [hf] at h; cases h
     | ok bl =>
       rw [hf] at h; cases h
       simp only [BuiltFor]
-      exact ⟨fs, mode, rfl, ih bl hf⟩
-  case case48 =>
+      exact ⟨fs, .dense, rfl, ih bl hf⟩
+  case case50 =>
     intro path name dt nl md ih b h
     simp only [newB] at h
     exact ih b h
-  case case49 =>
+  case case51 =>
     intro path bl h
     simp only [newFields] at h; cases h
     simp [BuiltForL]
-  case case50 =>
+  case case52 =>
     intro path f rest ihf ihr bl h
     simp only [newFields, bind, Except.bind] at h
     cases hb : newB (path ++ "." ++ f.name) f with
@@ -147,11 +147,11 @@ theorem newDT_builtFor_all :
         rw [hr] at h; cases h
         simp only [BuiltForL]
         exact ⟨trivial, ihf b hb, ihr r hr⟩
-  case case51 =>
+  case case53 =>
     intro path k bl h
     simp only [newUnionFields] at h; cases h
     simp [BuiltForU]
-  case case53 =>
+  case case55 =>
     intro path tid f rest idx hne ihf ihr bl h
     simp only [newUnionFields, hne, bind, Except.bind] at h
     cases hb : newB (path ++ "." ++ childName f.name) f with
@@ -199,7 +199,7 @@ theorem newRoot_builtFor (fields : List Field) (root : B) (h : newRoot fields = 
 theorem wfFields_get : ∀ (fs : Fields) (afs : ArrFields) (len : Nat), wfFields fs afs len = true →
     afs.toList.length = fs.toList.length ∧
     ∀ (j : Nat) (f : Field) (ma : FieldMeta × Arr), fs.toList[j]? = some f → afs.toList[j]? = some ma →
-      metaMatches ma.1 f = true ∧ (decodeAll ma.2).length = len ∧ WF f ma.2 = true
+      metaMatches ma.1 f = true ∧ (decodeAll ma.2).length = len ∧ WFS f ma.2 = true
   | .nil, .nil, _, _ => by simp [ArrFields.toList, Fields.toList]
   | .nil, .cons _ _ _, _, h => by simp [wfFields] at h
   | .cons _ _, .nil, _, h => by simp [wfFields] at h
